@@ -519,6 +519,18 @@ inductive Call
   | getHexDigest (pid alg : SArg)
   deriving DecidableEq, Repr
 
+/-- the pid string a call is addressed to, if it has one -/
+def Call.pidStr : Call → Option Str
+  | .storeObject (.str p) .. => some p
+  | .tagObject (.str p) _ => some p
+  | .storeMetadata (.str p) .. => some p
+  | .retrieveObject (.str p) => some p
+  | .retrieveMetadata (.str p) _ => some p
+  | .deleteObject (.str p) => some p
+  | .deleteMetadata (.str p) _ => some p
+  | .getHexDigest (.str p) _ => some p
+  | _ => none
+
 def Call.prog (cfg : Config) (o : Oracle) : Call → PE Val
   | .storeObject p d a c ca s => HS.storeObject cfg o p d a c ca s
   | .tagObject p c => HS.tagObject cfg o p c
